@@ -170,6 +170,13 @@ impl quote::ToTokens for ParamsGenerator<'_> {
             syn::token::Gt::default(),
         );
 
+        // Lifetime parameters have to be declared before type and const parameters
+        for param in self.params {
+            if let syn::GenericParam::Lifetime(_) = param {
+                punctuator.push(param);
+            }
+        }
+
         if let Some(impl_t) = &self.impl_t {
             punctuator.push_fn(|stream| {
                 push_tokens!(
@@ -201,7 +208,10 @@ impl quote::ToTokens for ParamsGenerator<'_> {
         }
 
         for param in self.params {
-            punctuator.push(param);
+            match param {
+                syn::GenericParam::Lifetime(_) => {}
+                _ => punctuator.push(param),
+            }
         }
     }
 }
